@@ -1,7 +1,7 @@
 //@include prelude/head.rs
 //@include prelude/hash.rs
 use vstd::std_specs::convert::IntoSpec;
-broadcast use {vstd::std_specs::hash::group_hash_axioms, axh::axiom_uuid_key_model, ax::axiom_string_eq_spec, ax::axiom_string_obeys_eq, ax::axiom_string_to_string, tmod::axiom_taskmap_view_injective, ax::axiom_string_view_injective, axs::axiom_str_into_string, axs::axiom_str_into_string_obeys, axs::axiom_string_into_string, axs::axiom_string_into_string_obeys, axs::axiom_string_str_eq, axs::axiom_string_str_eq_obeys, axs::axiom_string_from_str, axs::axiom_string_from_str_obeys};
+broadcast use {vstd::std_specs::hash::group_hash_axioms, axh::axiom_uuid_key_model, ax::axiom_string_eq_spec, ax::axiom_string_obeys_eq, ax::axiom_string_to_string, ax::axiom_str_view_injective, tmod::axiom_taskmap_view_injective, ax::axiom_string_view_injective, axs::axiom_str_into_string, axs::axiom_str_into_string_obeys, axs::axiom_string_into_string, axs::axiom_string_into_string_obeys, axs::axiom_string_str_eq, axs::axiom_string_str_eq_obeys, axs::axiom_string_from_str, axs::axiom_string_from_str_obeys};
 //@props C19
 //@include regions/errors.rs
 //@include regions/op_types.rs
@@ -10,6 +10,8 @@ broadcast use {vstd::std_specs::hash::group_hash_axioms, axh::axiom_uuid_key_mod
 //@include vocab/localmodel.rs
 //@include vocab/undomodel.rs
 //@include prelude/taskstd.rs
+//@include prelude/uuidtext.rs
+//@include regions/depmap_impl.rs
 //@include regions/status_impl.rs
 //@include regions/taskdata_impl.rs
 //@include regions/task_impl.rs
